@@ -478,10 +478,16 @@ func (g *richGen) collectiveCreate() bool {
 					sp = []colltypes.WeightedSpendingPool{{Name: "richpool", Weight: sdk.NewDecWithPrec(6, 1)}, {Name: pools[g.rn(len(pools))].Name, Weight: sdk.NewDecWithPrec(4, 1)}}
 				}
 				bond := c.Amount.QuoRaw(int64(1 + g.rn(3)))
+				// the collective's own voting period: short (its proposals are tallied and enacted within the history) or
+				// longer than the bonding time - an under-bonded collective is then removed WHILE its proposals are voting
+				votePeriod := uint64(30)
+				if g.chance(1, 3) {
+					votePeriod = uint64(1200 + g.rn(900))
+				}
 				// below the activity threshold sometimes: such a collective is removed after the bonding time
 				m := colltypes.NewMsgCreateCollective(g.A(s), fmt.Sprintf("coll%d", g.nColl), "generated", sdk.NewCoins(sdk.NewCoin(c.Denom, bond)),
 					colltypes.DepositWhitelist{Any: g.chance(2, 3), Accounts: []string{g.S(g.pick(g.plain))}}, colltypes.OwnersWhitelist{Accounts: []string{g.S(g.sudo), g.S(g.voters[2])}},
-					sp, 0, uint64(60+g.rn(200)), 0, sdk.NewDecWithPrec(33, 2), 30, 20)
+					sp, 0, uint64(60+g.rn(200)), 0, sdk.NewDecWithPrec(33, 2), votePeriod, 20)
 				return g.add("collective-create", s, m)
 			}
 		}
